@@ -19,6 +19,7 @@ def run(ctx, rep):
         tag = "" if cfg == "default" else "@" + cfg
         rep.analysed["bodies" + tag] = len(prog.bodies)
         reader(prog, rep, tag)
+        cursor(prog, rep, tag)
         addresses(prog, rep, spec, tag)
         strings(prog, rep, tag)
         walk_exits(prog, rep, tag)
@@ -339,3 +340,87 @@ def walk_exits(prog, rep, tag):
         if not ks:
             bad.append(q.loc(b, bi, si))
     rep.ob(P, "gives-up-only-where-the-image-ends" + tag, bool(nones) and not bad, "every Ok(None) of the category walk is reached only at the End marker, on an address overrun, or after the empty-category count reached its threshold: %s%s" % (kinds, (" UNAUDITED exits at %s" % bad) if bad else ""), loc=b.span)
+
+
+
+def _slice_root(b, op, depth=8):
+    """Identity of the slice an operand denotes: through moves, casts and plain reborrows to the local (or projected
+    place) it was first bound as.  `let (chunk, _) = chunk.split_at(n)` makes a *new* root."""
+    pl = op_place(op)
+    if pl is None:
+        return None
+    proj = [p for p in pl["p"] if p != "*"]
+    if proj or depth < 0:
+        return (pl["l"], repr(proj))
+    ds = b.defs().get(pl["l"], [])
+    if len(ds) == 1 and ds[0][2] == "assign":
+        rv = ds[0][3]["rv"]
+        if rv["k"] in ("use", "cast") and rv.get("a") and op_place(rv["a"][0]) is not None:
+            return _slice_root(b, rv["a"][0], depth - 1)
+        if rv["k"] == "ref":
+            return _slice_root(b, {"copy": rv["place"]}, depth - 1)
+    return (pl["l"], "[]")
+
+
+def _len_sources(b, op, depth=8):
+    """Slice roots whose `.len()` feeds an integer operand (through casts, moves, checked-add tuples and sums)."""
+    pl = op_place(op)
+    if pl is None or depth < 0:
+        return set()
+    out = set()
+    for d in b.defs().get(pl["l"], []):
+        if d[2] == "call":
+            c = d[3]
+            if (c.decl_s or c.name).endswith("slice::len") and c.args:
+                r = _slice_root(b, c.args[0])
+                if r is not None:
+                    out.add(r)
+        elif d[2] == "assign" and not d[3]["place"]["p"]:
+            rv = d[3]["rv"]
+            if rv["k"] in ("use", "cast", "bin"):
+                for a in rv.get("a", []):
+                    out |= _len_sources(b, a, depth - 1)
+    return out
+
+
+def cursor(prog, rep, tag):
+    """The read position moves by exactly what was delivered: every `byte_pos +=` adds the length of the very slice
+    that is copied into the caller's buffer next to it (the truncated last chunk, not the whole chunk it was cut from).
+    The bytes returned by *this* call do not depend on it - the next read on the same range does."""
+    P = "C12.read"
+    b = prog.async_body("<EepromRange as Read>::read")
+    incs = []
+    for (bi, si, kind, pl) in q.field_accesses(b, "EepromRange", "byte_pos"):
+        if kind != "write":
+            continue
+        st = b.stmts(bi)[si]
+        srcs = set()
+        for a in st["rv"].get("a", []):
+            srcs |= _len_sources(b, a)
+        incs.append((bi, srcs))
+    copies = []
+    for c in b.calls():
+        if (c.decl_s or c.name).endswith("slice::copy_from_slice") and len(c.args) == 2:
+            copies.append((c.bb, _slice_root(b, c.args[1]), c))
+    inc_blocks = {bi for bi, _ in incs}
+    ok = bool(incs) and bool(copies)
+    why = []
+    for cb, root, c in copies:
+        mates = [(bi, srcs) for bi, srcs in incs if (b.dominates(bi, cb) or b.dominates(cb, bi))]
+        if not any(srcs == {root} for bi, srcs in mates):
+            ok = False
+            why.append("the copy at %s has no cursor increment by the length of the slice it copies" % c.span)
+    for bi, srcs in incs:
+        # copies reached from this increment before any other increment
+        seen, todo = set(), list(b.succ(bi))
+        while todo:
+            x = todo.pop()
+            if x in seen or x in inc_blocks:
+                continue
+            seen.add(x)
+            todo += b.succ(x)
+        for cb, root, c in copies:
+            if (cb in seen or cb == bi) and b.dominates(bi, cb) and srcs != {root}:
+                ok = False
+                why.append("the increment in bb%d adds the length of another slice than the one copied at %s" % (bi, c.span))
+    rep.ob(P, "cursor-advances-by-bytes-copied" + tag, ok, "every byte_pos increment adds the length of exactly the slice copied out beside it (%d increments, %d copies)%s" % (len(incs), len(copies), ("; " + "; ".join(why)) if why else ""), loc=b.span, how="dataflow")
